@@ -1,6 +1,6 @@
 """C18 — multi-threaded execution gives the single-thread result under every schedule.
-Lean: protocol-level theorems (double-checked lazy initialisation, cache under a lock, reduction) for any number of
-threads and any schedule.  Tie: event traces recorded from the OpenMP build through the UCL_STIR_VERIF schedule points
+Lean: protocol-level theorems (double-checked lazy initialisation, cache under a lock, reduction, per-thread accumulators that
+outlive a pass, scatter caches under first-come detector numbering, set_num_threads) for any number of threads and any schedule.  Tie: event traces recorded from the OpenMP build through the UCL_STIR_VERIF schedule points
 (with seeded schedule perturbation) are validated against the model's trace validators; results of multi-threaded runs
 are compared with single-threaded runs of the same binary (oracle)."""
 import os
@@ -28,12 +28,29 @@ def main(tier, replay):
         "segment calls writing disjoint regions and reading against an in-memory copy, exact; .project = forward projection into a file (every viewgram "
         "compared with the file of the single-thread run) and back projection from a file; .loglik = the loglik_full quantities with data, additive term and "
         "normalisation factors read from files; the single-bin accessors get_bin_value/set_bin_value only on ProjDataInMemory); scatter (SingleScatterSimulation::"
-        "process_data, 4..9 scatter points, 12..24 detectors x 1..3 rings, cache enabled and disabled). Each trace (one line per event; one trace per "
+        "process_data, 4..9 scatter points, 12..24 detectors x 1..3 rings, cache enabled and disabled). "
+        "ADDED (round 2) -- rethread: ONE live object used with N, then M, then N threads (stir::set_num_threads in between; N->M in 7->2, 2->7, 16->1, 4->4; set_up() "
+        "called again when the new count exceeds the count of the last set_up, and in 1 of 4 other changes), every use on other data / at another image and compared with "
+        "single-thread fresh objects: rethread.project (one BackProjectorByBinUsingProjMatrixByBin + one forward projector; the per-thread images of the back "
+        "projector are also followed by the executable model: `acc setup/pass/output` operations, the slots summed by get_output -- bp.reduce events -- must be the "
+        "model's), rethread.loglik (one PoissonLogLikelihoodWithLinearModelForMeanAndProjData: everything loglik_full asks), rethread.listmode; "
+        "scatter.history: ONE SingleScatterSimulation: process_data with T1 threads, a setter called again (nothing / set_template_proj_data_info with the same "
+        "template (twice as often, cache enabled 7 times in 8) / equal copies of the three images / a scatter-point image with the same number of points elsewhere / "
+        "set_exam_info / set_use_cache toggled), set_up, process_data with T2 threads; both outputs bitwise against fresh single-thread objects, and the same "
+        "history with one thread; listmode: PoissonLogLikelihoodWithLinearModelForMeanAndListModeDataWithProjMatrixByBin on synthetic in-memory list-mode "
+        "data (150..400 events, prompts and delayeds, TOF or not, additive term, normalisation, 1..3 subsets; no cache files / several batches / one batch): per "
+        "subset value, add_subset_sensitivity, sensitivity from set_up, sub-gradient (+ sensitivity), Hessian product, T threads vs 1 thread; tiny: 16 threads on "
+        "fewer work items than threads for loglik, loglik_full, scatter (5 bins per viewgram), scatter.history and listmode (3..8 events); clear_cache: child processes "
+        "in which 2/4/7 threads fetch 3000 rows through one matrix cache while 1 fetch in 20 is preceded by clear_cache() (rows against directly computed rows; crash / "
+        "hang of the child = verdict); default_threads: get_default_num_threads / set_num_threads() / set_default_num_threads with and without OMP_NUM_THREADS "
+        "against the model of num_threads.cxx (`nt` operations, exact) and the number of threads a parallel region really runs, plus one whole projection under the "
+        "default. `threads <T>` lines inside a trace: no event after it may come from a thread >= T, work items are counted per segment. Each trace (one line per event; one trace per "
         "distributable pass where the number of work items is known) is validated by the Lean trace validators (an `end` line answers ok/reject). "
         "Oracle: T-thread result vs single-thread result of the same binary. Tolerances relative to the maximum of the reference: forward projection 1e-5 "
         "(one thread per bin, no reassociation expected), back projection 2e-5, images 5e-5 (float sums of <= ~10^3 addends reassociated over per-thread images: "
         "bound n*2^-24 ~ 6e-5 worst case, ~sqrt(n)*2^-24 typical; the gradient relative to |back projection| + |sensitivity| whose difference it is), log-likelihood "
-        "values 1e-6 (double partial sums), scatter bins bitwise (each bin is one thread's sequential sum), scatter totals 1e-12 (double reduction); "
+        "values 1e-6 (double partial sums), scatter bins bitwise (each bin is one thread's sequential sum), scatter totals 1e-12 (double reduction), "
+        "list-mode images 5e-5 (float sums of <= 400 events reassociated over per-thread images), list-mode values 1e-7 relative + 1e-6 (a lost event changes them by |log| ~ 1); "
         "a lost or duplicated contribution of one viewgram / one bin changes results by >= 1e-3.",
         extra=dict(states=stats.get("ops", 0), transitions=stats.get("ops", 0)))
     chk.assumptions += ["protocol-level theorems only: OpenMP atomic/critical/locks are assumed to give sequentially consistent access to the flags and caches",
@@ -43,8 +60,15 @@ def main(tier, replay):
                         "single-thread run (measured: both go unnoticed at quick and thorough tier); only a race detector would see them",
                         "ProjDataFromStream / ProjDataInMemory have no schedule points: interleavings inside their critical sections are provoked by contention "
                         "(hundreds of short calls per thread), not forced",
-                        "list-mode gradients (PoissonLogLikelihoodWithLinearModelForMeanAndListModeDataWithProjMatrixByBin) are not exercised by this harness; "
-                        "scatter: single scatter only, output in memory, no down-sampling of scanner or image inside the simulation"]
+                        "list-mode: synthetic in-memory list-mode data only (no scanner file formats), LM_distributable_computation has no schedule points of its own: its "
+                        "interleavings are perturbed only at the matrix-cache points inside it; scatter: single scatter only, output in memory, no down-sampling of scanner or "
+                        "image inside the simulation",
+                        "thread-count changes: more threads than the last set_up() was made with is only exercised after a new set_up() (the documented way to size the per-thread "
+                        "buffers); without it BackProjectorByBin indexes its vector of per-thread images out of range (not run: it would corrupt the harness' heap)",
+                        "the Accum / ScCache / NumThreads theorems are about the transcribed bookkeeping (which slots are zeroed and summed, which number a detector gets, what "
+                        "omp_set_num_threads is called with), with an image abstracted to an integer and a cache request taken as one atomic step",
+                        "concurrent clear_cache() is provoked on ProjMatrixByBinUsingRayTracing from the harness' own threads; the SPECT matrices that call it from inside the "
+                        "library's parallel loops are not run"]
     if audit:
         vlib.proof_coverage(chk, audit, "cd lean && lake build StirVerif stirdriver && lake env lean ../build/out/Audit_C18.lean")
     return chk.finish()
